@@ -39,6 +39,11 @@ def spaced (d : Int) : List Int → Bool
   | a :: b :: r => decide (b ≥ a + d) && spaced d (b :: r)
   | _ => true
 
+/-- with attempts that take time: every attempt starts at least `d` after the END of the previous one -/
+def gapped (d : Int) : List (Int × Int) → Bool
+  | a :: b :: r => decide (b.1 ≥ a.2 + d) && gapped d (b :: r)
+  | _ => true
+
 /-! ## Once: state machine over the cache entry's life -/
 
 structure OnceSt where
